@@ -30,11 +30,17 @@ def main():
     signal.alarm(limit)
     chk = Check(a.pid, a.tier, seed, replay=a.replay)
     mod = importlib.import_module(f"harness.checks.{a.pid.lower()}")
-    if a.replay:
-        payload = json.load(open(a.replay))
-        mod.replay(chk, payload)
-    else:
-        mod.run(chk)
+    try:
+        if a.replay:
+            payload = json.load(open(a.replay))
+            mod.replay(chk, payload)
+        else:
+            mod.run(chk)
+    except Exception as e:  # a crash of the harness is a broken correspondence, never a silent pass or a bare traceback
+        import traceback
+        tb = traceback.format_exc()
+        sys.stderr.write(tb)
+        chk.proof_break(f"harness({a.pid})", f"check crashed: {type(e).__name__}: {e} :: {tb[-600:]}")
     rc = chk.finish()
     sys.stdout.flush()
     os._exit(rc)
